@@ -223,6 +223,7 @@ struct Sched {
 }
 
 const ABORT: &str = "verif-abort";
+const VISITOR_PANIC: &str = "verif-visitor-panic";
 
 impl Sched {
     fn lock(&self) -> MutexGuard<'_, Inner> {
@@ -388,7 +389,14 @@ struct RunOut {
     panicked: bool,
 }
 
-fn real_run(roots: &[PathBuf], n: usize, quit_at: Option<usize>, policy: Policy, max_steps: usize) -> RunOut {
+fn real_run(
+    roots: &[PathBuf],
+    n: usize,
+    quit_at: Option<usize>,
+    panic_at: Option<usize>,
+    policy: Policy,
+    max_steps: usize,
+) -> RunOut {
     let sched = Arc::new(Sched {
         m: Mutex::new(Inner {
             n,
@@ -457,6 +465,10 @@ fn real_run(roots: &[PathBuf], n: usize, quit_at: Option<usize>, policy: Policy,
                     Err(e) => PathBuf::from(format!("<error {}>", e)),
                 };
                 g.visits.push((step, w, p));
+                if panic_at == Some(idx) {
+                    drop(g);
+                    std::panic::panic_any(VISITOR_PANIC);
+                }
                 if g.quit_at == Some(idx) {
                     WalkState::Quit
                 } else {
@@ -504,6 +516,8 @@ fn point_name(p: YieldPoint) -> &'static str {
 struct Case {
     n: usize,
     quit: Option<usize>,
+    /// self-test only (`quit=P<k>`): the visitor PANICS at visit k — outside the property's quantifier
+    panic_at: Option<usize>,
     forest: Vec<Node>,
     sched: String, // rand:SEED | pct:SEED:D | fixed:a.b.c | dfs:a.b.c
 }
@@ -512,7 +526,11 @@ fn show_case(c: &Case) -> String {
     format!(
         "n={} quit={} forest={} sched={}",
         c.n,
-        c.quit.map_or("-".to_string(), |q| q.to_string()),
+        match (c.panic_at, c.quit) {
+            (Some(k), _) => format!("P{}", k),
+            (None, Some(q)) => q.to_string(),
+            (None, None) => "-".to_string(),
+        },
         show_forest(&c.forest),
         c.sched
     )
@@ -521,19 +539,24 @@ fn show_case(c: &Case) -> String {
 fn parse_case(s: &str) -> Option<Case> {
     let mut n = None;
     let mut quit = None;
+    let mut panic_at = None;
     let mut forest = None;
     let mut sched = None;
     for tok in s.split_whitespace() {
         let (k, v) = tok.split_once('=')?;
         match k {
             "n" => n = Some(v.parse().ok()?),
+            "quit" if v.starts_with('P') => {
+                panic_at = Some(v[1..].parse().ok()?);
+                quit = Some(None);
+            }
             "quit" => quit = Some(if v == "-" { None } else { Some(v.parse().ok()?) }),
             "forest" => forest = Some(parse_forest(v)?),
             "sched" => sched = Some(v.to_string()),
             _ => return None,
         }
     }
-    let c = Case { n: n?, quit: quit?, forest: forest?, sched: sched? };
+    let c = Case { n: n?, quit: quit?, panic_at, forest: forest?, sched: sched? };
     if c.n == 0 || c.n > 16 || c.forest.is_empty() {
         return None;
     }
@@ -634,7 +657,28 @@ fn run_case(c: &Case, case_text: &str, sc: &mut Scratch, drv: &mut Driver, rep: 
     let kind = c.sched.split(':').next().unwrap_or("").to_string();
     rep.branch(&format!("policy:{}", kind));
     rep.branch(&format!("threads:{}", c.n));
-    let out = real_run(&roots, c.n, c.quit, policy, max_steps);
+    let out = real_run(&roots, c.n, c.quit, c.panic_at, policy, max_steps);
+    if let Some(k) = c.panic_at {
+        // Outside the property (a visitor that unwinds): only make sure the harness survives it.  The worker dies
+        // while counted in active_workers, nobody can ever see the counter reach 0: the others spin until the
+        // watchdog tears the run down.
+        let reached = out.visits.len() > k;
+        rep.branch(if !reached {
+            "visitor-panic:not-reached"
+        } else if out.abort.is_some() {
+            "visitor-panic:others-spin-until-watchdog"
+        } else {
+            "visitor-panic:run-ended"
+        });
+        rep.notes.push(format!(
+            "visitor panic at visit {} (outside the property): reached={} outcome={} after {} steps",
+            k,
+            reached,
+            out.abort.clone().unwrap_or_else(|| "run ended".into()),
+            out.decisions.len()
+        ));
+        return Outcome::default();
+    }
     let workers: Vec<usize> = out.decisions.iter().map(|d| d.w).collect();
     let fixed_case = show_case(&Case { sched: format!("fixed:{}", dotted(&workers)), ..c.clone() });
     let mut violated = false;
@@ -990,7 +1034,7 @@ fn main() {
     // silence the panics used to tear down an aborted (hung) run
     let default_hook = std::panic::take_hook();
     std::panic::set_hook(Box::new(move |info| {
-        if info.payload().downcast_ref::<&str>().map_or(false, |s| *s == ABORT) {
+        if info.payload().downcast_ref::<&str>().map_or(false, |s| *s == ABORT || *s == VISITOR_PANIC) {
             return;
         }
         if let Some(s) = info.payload().downcast_ref::<String>() {
@@ -1048,7 +1092,7 @@ fn main() {
                 if rep.violations.len() >= 6 {
                     break;
                 }
-                let base = Case { n, quit: q, forest: forest.clone(), sched: String::new() };
+                let base = Case { n, quit: q, panic_at: None, forest: forest.clone(), sched: String::new() };
                 let (runs, complete) = explore(&base, bound, cap, &mut sc, &mut drv, &mut rep);
                 total_runs += runs;
                 all_complete &= complete;
@@ -1059,6 +1103,18 @@ fn main() {
             "dfs: {} runs; every schedule within the deviation bound enumerated for every (tree, workers, quit index) configuration: {}",
             total_runs, all_complete
         ));
+        // ---- self-test (thorough only, costs one watchdog period): a visitor that panics
+        if args.thorough {
+            let c = Case {
+                n: 2,
+                quit: None,
+                panic_at: Some(1),
+                forest: parse_forest("d(f,f)").unwrap(),
+                sched: "rand:1".to_string(),
+            };
+            let text = show_case(&c);
+            run_case(&c, &text, &mut sc, &mut drv, &mut rep);
+        }
         // ---- random / PCT
         let total = args.cases.unwrap_or(if args.thorough { 30000 } else { 2500 });
         let mut forest = gen_forest(&mut rng, 6);
@@ -1079,7 +1135,7 @@ fn main() {
             } else {
                 format!("pct:{}:{}", rng.next() % 1_000_000_007, rng.range(1, 4))
             };
-            let c = Case { n, quit, forest: forest.clone(), sched };
+            let c = Case { n, quit, panic_at: None, forest: forest.clone(), sched };
             let text = show_case(&c);
             if i < 8 {
                 rep.sample(text.clone());
